@@ -425,6 +425,9 @@ impl GraphEngine {
             Direction::Incoming => Self::incoming_edges_key(from),
         };
 
+        // Parallel edges: the cheapest connecting edge decides the step.
+        let mut best: Option<(f64, u64)> = None;
+
         for edge_id in self.get_edge_list(&edges_key) {
             let Ok(edge) = self.get_edge(edge_id) else {
                 continue;
@@ -455,10 +458,12 @@ impl GraphEngine {
                 None => default_weight,
             };
 
-            return (weight, edge_id);
+            if best.is_none_or(|(w, _)| weight < w) {
+                best = Some((weight, edge_id));
+            }
         }
 
-        (default_weight, 0)
+        best.unwrap_or((default_weight, 0))
     }
 }
 
